@@ -380,7 +380,8 @@ pub fn run(args: &Args, rep: &Arc<Report>) {
         return;
     }
     let thorough = args.tier == "thorough";
-    let cfgs = all_configs_depth(if thorough { 3 } else { 2 });
+    let _ = thorough;
+    let cfgs = all_configs_depth(3);
     let n = cfgs.len();
     let chunk = 16;
     par_for(
@@ -398,6 +399,6 @@ pub fn run(args: &Args, rep: &Arc<Report>) {
         },
     );
     rep.extra("configurations", json!(n));
-    rep.extra("deviation_depth", json!(if thorough { 3 } else { 2 }));
-    rep.set_rule("every single- and two-field deviation from three valid base configurations (default, all-minimum, all-maximum), in the thorough tier also every three-field deviation from the default; per field {min-1, min, middle, max, max+1, 2^8+k, 2^32+k, usize::MAX}, alpha over {Rectangle, -0.0, -eps, 0, 2^-17, 0.5, 1, 1+eps, NaN, +-inf, +-subnormal, 2}, both OrderSel variants, all booleans; oracle (a): into_verified().is_ok() == (every field inside the documented range) and verify() agrees; oracle (b): every accepted in-range configuration encodes 7 probe inputs (+1 at its own block size) without panic, decodable losslessly by the reference decoder and claxon; non-trivial = an accepted in-range configuration");
+    rep.extra("deviation_depth", json!(3));
+    rep.set_rule("every single- and two-field deviation from three valid base configurations (default, all-minimum, all-maximum), and every three-field deviation from the default; per field {min-1, min, middle, max, max+1, 2^8+k, 2^32+k, usize::MAX}, alpha over {Rectangle, -0.0, -eps, 0, 2^-17, 0.5, 1, 1+eps, NaN, +-inf, +-subnormal, 2}, both OrderSel variants, all booleans; oracle (a): into_verified().is_ok() == (every field inside the documented range) and verify() agrees; oracle (b): every accepted in-range configuration encodes 7 probe inputs (+1 at its own block size) without panic, decodable losslessly by the reference decoder and claxon; non-trivial = an accepted in-range configuration");
 }
